@@ -179,3 +179,14 @@ Definition wf_C10 (remap : list sev) : bool :=
   subseq [SLoop; SCall "os.Stat"; SCall "os.Stat"; SCall "os.Rename"; SContinue; SCall "copyFile"; SCall "remapper.RemapOffset"; SCall "file.WriteAt";
           SCall "file.Close"; SCall "os.Create"; SCall "os.Rename"; SEndLoop; SCall "writeHeader"; SLoop; SCall "os.Remove"; SEndLoop] remap
   && Nat.eqb (count_calls "os.Rename" remap) 2 && Nat.eqb (count_calls "os.Create" remap) 1.
+
+(* ---- C13: the hand-over of the freelist file (HandOver.v) ---- *)
+Definition wf_C13 (togc process : list sev) : bool :=
+  (* an existing work file is returned as it is (no second hand-over over an unfinished one); otherwise, under the flush lock: write what
+     is buffered, close, rename the file to the work file, open a fresh file *)
+  subseq [SCall "os.Stat"; SCall "os.IsNotExist"; SIf; SReturn; SEndIf; SLock "cp.flushLock"; SCall "cp.writer.Flush"; SCall "cp.file.Close";
+          SCall "os.Rename"; SCall "os.OpenFile"; SAssign "cp.file"] togc
+  && Nat.eqb (count_calls "os.Rename" togc) 1
+  (* the cycle: obtain the work file, mark every record it names, and only then remove it *)
+  && subseq [SCall "freeList.ToGC"; SCall "os.OpenFile"; SLoop; SCall "flIter.Next"; SEndLoop; SCall "deleteRecords"; SCall "os.Remove"] process
+  && Nat.eqb (count_calls "os.Remove" process) 1.
